@@ -52,5 +52,5 @@ def apply(fc):
     fc.add_epilogue(dispatch_spec())
     fc.contract('parse', requires=['small(unarmored@.len() as int)'], ensures=dispatch_ensures())
     fc.contract('parse', within='trait AisMessageType', requires=['small(data@.len() as int)'])
-    fc.contract('push_unwrap', ensures=['final(list)@ == old(list)@.push(item)'])
+    fc.contract('push_unwrap', ensures=['final(list)@ == old(list)@.push(item)'], tags=['C14'])
     fc.contract('unarmor', external_body=True)
